@@ -317,9 +317,11 @@ func TestVerifC11(t *testing.T) {
 	c11big["sweep-many-expired-vs-writer"] = true
 	sweep := c11ScenarioX("sweep-many-expired-vs-writer", []string{"storeShortMany", "storeA0", "advance2s"},
 		[]m{{{"gc", "range"}}, {{"storeA0", "flush", "store1"}, {"get0"}}}, []string{"get0", "get1", "range"}, 1)
-	scs = append(scs, sweep)
+	// a store overlapping a flush of its shard, then a flush alone: whatever survived the first one must be gone
+	sf := c11ScenarioX("store-vs-flush-then-flush", []string{"store1"}, []m{{{"storeA0", "store3"}}, {{"flush"}}}, []string{"flush", "get0", "get3", "len", "range"}, 1)
+	scs = append(scs, sweep, sf)
 	if e.Tier == "thorough" {
-		scs = []vr.Scenario{sweep,
+		scs = []vr.Scenario{sweep, sf,
 			c11Scenario("point2-point2", []m{{P, P}, {P, P}}, 3, false),
 			c11Scenario("point2-point1-prefilled", []m{{P, P}, {P}}, 4, true),
 			c11Scenario("point1-point1-point1-prefilled", []m{{P}, {P}, {P}}, 3, true),
